@@ -15,6 +15,7 @@ type zzTCut struct {
 	data []byte
 	pos  int
 	cut  int
+	cut2 int // second cut (0: none); thorough tier
 	out  []byte
 }
 
@@ -25,6 +26,8 @@ func (c *zzTCut) Read(b []byte) (int, error) {
 	end := len(c.data)
 	if c.pos < c.cut {
 		end = c.cut
+	} else if c.cut2 > c.cut && c.pos < c.cut2 {
+		end = c.cut2
 	}
 	n := copy(b, c.data[c.pos:end])
 	c.pos += n
@@ -54,10 +57,14 @@ func zzH_C04_telnet() {
 	cmd := words[zzLen(0, 2)]
 	stream := []byte(user + "\r\n" + pass + "\r\n" + cmd + "\r\n")
 	cut := zzLen(1, len(stream))
+	cut2 := 0
+	if zzParam("CUTS", 1) == 2 && cut < len(stream) {
+		cut2 = zzLen(cut, len(stream)) // cut2 == cut: no second cut
+	}
 	rec := &zzTRec{}
 	s := &telnetService{Prompt: "$ ", MOTD: "hi"}
 	s.SetChannel(rec)
-	s.Handle(context.Background(), &zzTCut{data: stream, cut: cut})
+	s.Handle(context.Background(), &zzTCut{data: stream, cut: cut, cut2: cut2})
 	var gotUser, gotPass string
 	var cmds []string
 	logins := 0
